@@ -36,12 +36,19 @@ type fakeStream struct {
 	id     int
 	set    map[string]bool
 	broken bool
-	msgs   int
+	// recvBroken: the server ended its side (Recv fails) but a Send on the dead stream still returns without
+	// error, as it may for a while on a real stream
+	recvBroken bool
+	msgs       int
 	ambig  bool
 }
 
 func (s *fakeStream) Send(sub, unsub []string) error {
 	sched.Op("stream-send", "stream")
+	if s.w.holdSend {
+		// the transport is slow: the call returns when it is released (or finds the stream broken by then)
+		sched.Wait("stream-send-in-progress", "stream", func() bool { return !s.w.holdSend })
+	}
 	if s.broken {
 		return errors.New("stream broken")
 	}
@@ -66,7 +73,7 @@ func (s *fakeStream) Send(sub, unsub []string) error {
 }
 
 func (s *fakeStream) Recv() error {
-	sched.Wait("stream-recv", "stream", func() bool { return s.broken || s.w.cancelled })
+	sched.Wait("stream-recv", "stream", func() bool { return s.broken || s.recvBroken || s.w.cancelled })
 	return errors.New("stream closed")
 }
 
@@ -77,6 +84,7 @@ type c16world struct {
 	sendFailures int
 	cancelled    bool
 	down         bool // the discovery service is unreachable: no stream can be created
+	holdSend     bool // Send calls are in progress until released
 }
 
 func (w *c16world) maker(ctx context.Context) (svcDiscoveryStream, error) {
@@ -98,7 +106,7 @@ func (w *c16world) current() *fakeStream {
 		return nil
 	}
 	s := w.streams[len(w.streams)-1]
-	if s.broken {
+	if s.broken || s.recvBroken {
 		return nil
 	}
 	return s
@@ -239,6 +247,47 @@ func c16body(variant string) func() {
 // oracle    after a final "reachable again": the set subscribed on the live stream = the client's set = the dependency set
 // ---------------------------------------------------------------------------
 
+// C16 (S) slow send: a Send is still in progress when the stream breaks; more services are added before it
+// returns. Whatever happens to the old stream's sender, the re-established stream ends with the dependency set.
+func c16slowSendBody() {
+	w := &c16world{}
+	w.c = newSvcDiscoveryClient("config", w.maker)
+	ctx, cancel := context.WithCancel(context.Background())
+	sched.GoNamed("Run", func() { w.c.Run(ctx) })
+	sched.Settle(4)
+	w.holdSend = true
+	w.c.Subscribe("x")
+	sched.WaitQuiescent() // the sender is inside Send now
+	how := sched.Choose(sched.ClsInput, 2, "how the stream breaks")
+	if s := w.current(); s != nil {
+		if how == 0 {
+			s.broken = true
+		} else {
+			s.recvBroken = true // only the receiving side fails; the pending Send still returns normally
+		}
+	}
+	sched.Settle(4)
+	n := 1 + sched.Choose(sched.ClsInput, 2, "services added meanwhile")
+	ref := map[string]bool{"x": true}
+	for i := 0; i < n; i++ {
+		name := fmt.Sprintf("y%d", i)
+		w.c.Subscribe(name)
+		ref[name] = true
+	}
+	sched.WaitQuiescent()
+	w.holdSend = false
+	sched.Settle(8)
+	cur := w.current()
+	if cur == nil {
+		sched.Fail("no-stream-at-quiescence / slow send", fmt.Sprintf("%d streams created", len(w.streams)))
+	} else if keysOf(cur.set) != keysOf(ref) {
+		sched.Fail("stream-subscriptions-differ-from-dependencies / a send was in progress when the stream broke", fmt.Sprintf("stream %d holds {%s}, dependencies {%s}", cur.id, keysOf(cur.set), keysOf(ref)))
+	}
+	sched.SetOutcome(fmt.Sprint(n))
+	w.cancelled = true
+	cancel()
+}
+
 var c16phaseOps = []string{"+x", "-x", "+y", "-y", "outage", "back"}
 
 type c16phaseCase struct {
@@ -366,6 +415,13 @@ func init() {
 			return sched.Config{Bounds: b, Iterative: true, MaxSteps: 100000}, c16body(variant)
 		}})
 	}
+	sched.Register(&sched.Scenario{Name: "C16/slow-send", Setup: func(tier string) (sched.Config, func()) {
+		b := sched.Bounds{P: 1, F: 1, Sel: 1}
+		if tier == "thorough" {
+			b = sched.Bounds{P: 2, F: 2, Sel: 2}
+		}
+		return sched.Config{Bounds: b, Iterative: true, MaxSteps: 100000}, c16slowSendBody
+	}})
 	reg("C16/short", "short", sched.Bounds{P: 1, F: 1, Sel: 1, Env: 1}, sched.Bounds{P: 2, F: 1, Sel: 1, Env: 2})
 	reg("C16/many", "many", sched.Bounds{P: 0, F: 1, Sel: 0, Env: 1}, sched.Bounds{P: 1, F: 1, Sel: 1, Env: 1})
 	reg("C16/smallqueue", "smallqueue", sched.Bounds{P: 1, F: 1, Sel: 1, Env: 1}, sched.Bounds{P: 2, F: 2, Sel: 1, Env: 2})
